@@ -139,17 +139,17 @@ def unescape_quoted(body):
 
 
 def text_block_value(text):
-    """Value of a text-block token (source bytes `text`, no '\\r' inside), per the Jsonnet spec;
-    None if this oracle does not apply."""
-    if b"\r" in text:
-        return None
+    """Value of a text-block token (source bytes `text`), per the Jsonnet spec with the CR LF reading that
+    `C14_textblock_strip` states: lines end at LF; the header may hold spaces, tabs and CR; a line that is empty
+    or a lone CR is an empty line and keeps its bytes; every other line starts with the first content line's
+    run of spaces/tabs, which is removed.  None if this oracle does not apply."""
     assert text.startswith(b"|||")
     i = 3
     strip = False
     if text[i:i + 1] == b"-":
         strip = True
         i += 1
-    while text[i:i + 1] in (b" ", b"\t"):
+    while text[i:i + 1] in (b" ", b"\t", b"\r"):
         i += 1
     if text[i:i + 1] != b"\n":
         return None
@@ -161,7 +161,7 @@ def text_block_value(text):
     if term.lstrip(b" \t") != b"|||":
         return None
     k = 0
-    while k < len(body) and body[k] == b"":
+    while k < len(body) and body[k] in (b"", b"\r"):
         k += 1
     if k == len(body):
         return None
@@ -169,10 +169,10 @@ def text_block_value(text):
     w = first[:len(first) - len(first.lstrip(b" \t"))]
     if not w:
         return None
-    out = [b"\n"] * k
+    out = [ln + b"\n" for ln in body[:k]]
     for ln in body[k:]:
-        if ln == b"":
-            out.append(b"\n")
+        if ln in (b"", b"\r"):
+            out.append(ln + b"\n")
         elif ln.startswith(w):
             out.append(ln[len(w):] + b"\n")
         else:
@@ -534,8 +534,8 @@ def run(rep):
                 "distinct by input bytes")
     rep.assumptions = ["fewer than 2^63 fractional digits (isize implicit exponent modelled as Int)",
                        "span offsets modelled as Nat (SpanManager encoding is property C16)",
-                       "text-block value oracle in Python applies to blocks without CR; CRLF behaviour is "
-                       "tied by model-vs-implementation comparison only"]
+                       "text-block value oracle in Python: CR LF forms read as C14_textblock_strip states them (a lone CR is an "
+                       "empty line and keeps its bytes)"]
     vlib.prelude(rep, extra_modules=())
     rng = rep.rng
     thorough = rep.tier != "quick"
